@@ -828,6 +828,10 @@ func (c *compiler) evalCallExpression(node *ast.CallExpression) (interface{}, er
 			expectedT := rt.In(pos)
 			if v != nil {
 				ar = reflect.ValueOf(v)
+			} else if hv, ok := c.helperContextFor(expectedT, node); ok {
+				// nil where the helper context goes: the helper gets the one it
+				// would have been given had the argument been left out
+				ar = hv
 			} else {
 				ar = reflect.New(expectedT).Elem()
 			}
@@ -841,14 +845,8 @@ func (c *compiler) evalCallExpression(node *ast.CallExpression) (interface{}, er
 		}
 
 		hc := func(arg reflect.Type) {
-			hhc := reflect.TypeOf((*hctx.HelperContext)(nil)).Elem()
-			if arg.ConvertibleTo(reflect.TypeOf(HelperContext{})) || arg.Implements(hhc) {
-				hargs := HelperContext{
-					Context:  c.ctx,
-					compiler: c,
-					block:    node.Block,
-				}
-				args = append(args, reflect.ValueOf(hargs))
+			if hv, ok := c.helperContextFor(arg, node); ok {
+				args = append(args, hv)
 				return
 			}
 
@@ -969,6 +967,37 @@ func (c *compiler) evalCallExpression(node *ast.CallExpression) (interface{}, er
 	}
 
 	return nil, nil
+}
+
+// helperContextFor is the helper context of the call node as a value of the
+// parameter type arg, if arg is a place for one: HelperContext itself, a pointer
+// to it, or an interface it implements (hctx.HelperContext).
+func (c *compiler) helperContextFor(arg reflect.Type, node *ast.CallExpression) (reflect.Value, bool) {
+	hhc := reflect.TypeOf((*hctx.HelperContext)(nil)).Elem()
+	if !arg.ConvertibleTo(reflect.TypeOf(HelperContext{})) && !arg.Implements(hhc) {
+		return reflect.Value{}, false
+	}
+
+	hargs := HelperContext{
+		Context:  c.ctx,
+		compiler: c,
+		block:    node.Block,
+	}
+
+	hv := reflect.ValueOf(hargs)
+	if hv.Type().AssignableTo(arg) {
+		return hv, true
+	}
+
+	if pv := reflect.ValueOf(&hargs); pv.Type().AssignableTo(arg) {
+		return pv, true
+	}
+
+	if hv.Type().ConvertibleTo(arg) {
+		return hv.Convert(arg), true
+	}
+
+	return reflect.Value{}, false
 }
 
 func (c *compiler) evalForExpression(node *ast.ForExpression) (interface{}, error) {
